@@ -59,7 +59,7 @@ def behaviours_from_sim(ctx, files):
             if last['op'] == 'list':
                 s['b'] = bm[last['b']]
                 s['prefix'] = conc_str(last['prefix'], v)
-                s['list'] = [conc_name(n, v) for n in st['res']]
+                s['list'] = [conc_name(n, v) for n in st['res']['names']]
             steps.append(s)
         if steps:
             behs.append({'id': i, 'buckets': sorted(bm.values()), 'steps': steps})
@@ -203,15 +203,15 @@ def service_names(ctx):
     # upload: the real handler chain of telemetrygodev (harness shared with C12)
     from . import c12
     steps = c12.service_name_steps()
-    recs, rc, out = ctx.run_harness('./cmd/telemetrygodev', 'TestVerifC12', inp={'config': c12.config_json(), 'limit': c12.LIMIT,
-                                                                                'behaviours': [{'id': 0, 'steps': steps}]},
-                                    module_dir='godev', timeout=900)
-    gu.summary_of(recs, out, 'C18 upload')
+    recs, rc, out = ctx.run_harness('./cmd/telemetrygodev', 'TestVerifC12', inp={'config': c12.config_json(), 'behaviours': [{'id': 0, 'steps': steps}]},
+                                    module_dir='godev', timeout=900, env=gu.fast_tmp_env(ctx))
+    summ = gu.summary_of(recs, out, 'C18 upload')
+    prefix = summ['upload_prefix']
     nup = 0
     for m in recs:
         if m.get('kind') != 'step':
             continue
-        esc = [p for p in (m.get('created', []) + m.get('changed', []) + m.get('removed', [])) if not p.startswith(c12.UPLOAD_PREFIX)]
+        esc = [p for p in (m.get('created', []) + m.get('changed', []) + m.get('removed', [])) if not p.startswith(prefix)]
         if esc:
             ctx.violation('C18:service-name:upload:outside-bucket', m, 'upload service created or changed %s outside its bucket directory' % esc)
         nup += len(m.get('created', []))
